@@ -142,16 +142,18 @@ def compile_modified_block(
             ctrl_args.append(control_array)
 
     # Call
+    # Every control modifier prepends its control array to the inputs of the function
+    # it wraps, so the array of the *last* control comes first.
     call = dfg.builder.add_op(
         ops.CallIndirect(),
         call,
-        *ctrl_args,
+        *reversed(ctrl_args),
         *args,
     )
     outports = iter(call)
 
-    # Unpack controls
-    for i, control in enumerate(modified_block.control):
+    # Unpack controls (returned in the same order as they were passed in)
+    for i, control in reversed(list(enumerate(modified_block.control))):
         outport = next(outports)
         if is_array_type(get_type(control.ctrl[0])):
             control_array = dfg.builder.add_op(
